@@ -10,20 +10,21 @@ from concurrent.futures import ThreadPoolExecutor
 import cmdfam
 import vlib
 
-NR = {"read": 0, "write": 1, "close": 3, "fork": 57}
+# (names with an underscore on purpose: exit_group, rt_sigreturn - a flag value is a list of names, not of words)
+NR = {"read": 0, "write": 1, "close": 3, "exit_group": 231}
 # a binary of another architecture than the host's (Profile!ArchNames is the BINARY's table): an i386 ELF, for which socketcall exists and accept does not
-NR386 = {"read": 3, "write": 4, "close": 6, "socketcall": 102}
+NR386 = {"read": 3, "write": 4, "rt_sigreturn": 173, "socketcall": 102}
 GEN_CFG_386 = """CONSTANTS
-  Universe = {"read", "write", "close", "socketcall", "accept", "verif_bogus"}
-  ArchNames = {"read", "write", "close", "socketcall"}
+  Universe = {"read", "write", "rt_sigreturn", "socketcall", "accept", "verif_bogus"}
+  ArchNames = {"read", "write", "rt_sigreturn", "socketcall"}
   MaxFound = %d
   OutFile = "%s"
   Dev = {}
 """
 TRIVIAL_MAIN = "package main\n\nimport \"os\"\n\nfunc main() { os.Exit(0) }\n"
 GEN_CFG = """CONSTANTS
-  Universe = {"read", "write", "close", "fork", "socketcall", "verif_bogus"}
-  ArchNames = {"read", "write", "close", "fork"}
+  Universe = {"read", "write", "close", "exit_group", "socketcall", "verif_bogus"}
+  ArchNames = {"read", "write", "close", "exit_group"}
   MaxFound = %d
   OutFile = "%s"
   Dev = {}
@@ -178,7 +179,7 @@ def check(ctx, replay=None):
     ctx.cov["transitions"] = ctx.cov["transitions"] or 1
     ctx.cov["cases_generated"] = len(cases)
     ctx.sample({"case": picked[0], "closure_profiles": len(closure_items)})
-    ctx.cov["rule"] = ("cases of Profile.tla: every sequence of at most 3 discoveries over {read, write, close, fork} (the same syscall at several sites included) x every pair of disjoint "
+    ctx.cov["rule"] = ("cases of Profile.tla: every sequence of at most 3 discoveries over {read, write, close, exit_group} (the same syscall at several sites included) x every pair of disjoint "
                        "-b / -allow subsets of a 6-name universe (incl. a name of another architecture and an unknown name); %d of %d cases (seeded, stratified by class) run on the real "
                        "profiler binary through an injected cache file, flags in four syntaxes, both output formats; every YAML profile then loaded through ucfg, compiled and executed "
                        "on every x86_64 table number; non-trivial = discoveries and at least one flag" % (len(picked), len(cases)))
